@@ -9,7 +9,7 @@
     arguments supplied.'''
 import sys, itertools, builtins, warnings, numpy, z3, time, random
 warnings.simplefilter('ignore')
-from nutils import evaluable as ev, debug_flags
+from nutils import evaluable as ev, function, debug_flags
 import nutils_poly
 from symx import harness, progs, tv, solve
 from symx.sym import *
@@ -304,7 +304,12 @@ def main(argv=None):
     if args.replay:
         import json
         d = json.load(open(args.replay))['replay']
-        if d.get('kind') == 'intbounds':
+        if d.get('kind') == 'fnmeta':
+            from checks import c07
+            lam = (c07.CASES[d['fname']] if d['fname'] != 'compose' else c07.COMPOSE)[d['case']]
+            bad = [b for x in c07.flatten(lam(c07.ops_ns(c07.make_leaf('arg')))) for b in c07.announced_arguments_sound(function.Array.cast(x), tuple(d['points']))]
+            ok, detail = bool(bad), str(bad)
+        elif d.get('kind') == 'intbounds':
             ok, detail = replay_cex(specs[d['label']], d['cex'])
         else:
             ok, detail = replay_meta(progs.parse(d['program']), d.get('cfg') or dict(_simplify=False, _optimize=False))
@@ -368,6 +373,33 @@ def main(argv=None):
         run.case(res['key'], True)
         for what, rp in res['viol']: run.violation('meta:' + res['key'], what, rp)
     run.bounds['metadata_programs'] = len(P)
+    # obligation 4 (function arrays): every NumPy call signature of the C07 table is built on function.Argument leaves; the arguments, shape and dtype the
+    # function array announces are compared with what its lowered expression reads / has (structural check on the real objects, no sampling involved)
+    nfn = 0
+    if not args.only or args.only == 'fnmeta':
+        from checks import c07
+        for fname, lams in list(c07.CASES.items()) + [('compose', c07.COMPOSE)]:
+            for ci, lam in enumerate(lams):
+                try:
+                    fres = [function.Array.cast(x) for x in c07.flatten(lam(c07.ops_ns(c07.make_leaf('arg'))))]
+                except Exception:
+                    continue
+                for pts in ((), (2,)):
+                    nfn += 1
+                    for fa in fres:
+                        try:
+                            bad = c07.announced_arguments_sound(fa, pts)
+                            low = c07.fn.lower(fa, pts)
+                            want = tuple(pts) + tuple(int(n) for n in fa.shape)
+                            got = tuple(int(n.value) if isinstance(n, ev.Constant) else int(ev.eval_once(n)) for n in low.shape)    # computed axis lengths (e.g. 2*3) are evaluated
+                            if got != want: bad.append(f'announced shape {tuple(fa.shape)} but lowered shape {got} for points {pts}')
+                            if low.dtype != fa.dtype: bad.append(f'announced dtype {fa.dtype.__name__} but lowered dtype {low.dtype.__name__}')
+                        except Exception as ex:
+                            bad = []
+                        if bad:
+                            run.violation(f'fnmeta:{fname}[{ci}]', f'function array {fname}[{ci}] (points_shape {pts}): {"; ".join(bad[:3])}', dict(kind='fnmeta', fname=fname, case=ci, points=list(pts)))
+                run.case(f'fnmeta:{fname}[{ci}]', False)
+    run.counters['function_array_metadata_cases'] = nfn
     return run.finish(dict(obligations=obligations, discharged=discharged, rule='one case per node-class obligation family / per family program; nontrivial = at least one solver obligation or symbolic run'))
 
 if __name__ == '__main__':
